@@ -531,6 +531,7 @@ func checkC15(c *lib.Ctx) {
 	r := c.R
 	r.Rule = "concurrent histories of single-packet ReadAt/WriteAt within the extent and Stat (size) by 2..8 goroutines over one Client on 1..4 handles of one fixed-size file, each handle opened O_RDONLY, O_WRONLY or O_RDWR (operations go to handles that serve them); both servers, allocator on/off, request server with and without OpenFileWriter; 8 pairs (server max-tx-packet, client max packet) from the defaults to the 256 KiB frame limit, equal and unequal; every 5th history uses operations of exactly the configured single-packet size, just below it and just above the default size, on a file of 2..3 such packets; every read has a unique (offset,length), every write unique data, so each client operation is matched to the store step that served it — direct oracle: the instrumented store sees exactly one ReadAt/WriteAt/Stat step per completed operation (an operation served piecewise is not atomic), no step without an operation; the stamped history is decided by the PROVED checker checkStamped (Lean, C15.checker_sound) — exact trace validation, no search; non-trivial = history with at least two overlapping operations one of which is a write"
 	r.Rule += ". HAMMER family: 16…32 goroutines over one Client, each owning one region of the file (256 bytes quick; 64…32768 thorough; 1…4 O_RDWR handles), do thousands of (WriteAt fresh pattern, ReadAt it back) pairs — back to back at each goroutine's own pace, or in volleys (all goroutines wait for each other and start a pair together; thorough also: before every 8th pair) — against both servers (allocator on/off) over a mutex-protected atomic store, 1.5 s per run and 4 runs quick (two side by side), 5 s per run and 12 runs thorough, each in a process of its own; direct oracle per operation: WriteAt returns (len, nil), ReadAt returns (len, nil) and exactly the bytes this goroutine wrote last (nobody else writes to its region), no call hangs, the connection stays up; the first 6 pairs of every goroutine are stamped and validated by the proved checker as one history"
+	r.Rule += ". DISTINCT-HANDLES hammer: one session holds 2…4 handles that differ observably (two files of different content, each opened O_RDONLY, O_WRONLY or O_RDWR; 7 layouts, the os-backed server always with a read-only and a write-only handle), 16…32 goroutines, each bound to one handle and owning region g (64/256/1024 bytes) of both files, issue single-packet ReadAt/WriteAt back to back for 1.5 s (quick: one run per server; thorough: three of 5 s per server); oracle: every in-extent operation returns (len, nil), every read returns the bytes of the file its handle names, and after the run every region of both files holds what was written there through a handle of that file (or its initial content)"
 	r.Rule += ". ALIAS family (484 histories quick, 5000 thorough): the file lives in a name space (the package's InMemHandler behind the request server, with and without LstatFileLister; a scratch directory behind the os-backed server; allocator on/off; start/working directory not given, the file's directory, its sub-directory) next to a symbolic link with absolute text, one with relative text, a chain of links, a link in a sub-directory, a hard link, a second file of another size and a link to it; 2..4 handles (r/w/rw) are opened through the own name, the links, the hard link, uncleaned spellings (/d/../f, /./f, //f) and relative spellings — the first two handles run through all ordered pairs of the 11 names; 2..8 goroutines issue single-packet ReadAt/WriteAt within the extent, File.Stat, File.Seek(0,SeekEnd), Client.Stat(name), Client.Lstat(name whose last component is no link), File.Truncate(current size), Client.Truncate(name, current size); every history ends with File.Stat through every handle and a read of the whole file through every readable handle after all goroutines returned; all size queries are the model's size operation and the history is decided by the proved checker (truncations to the current size are the identity and are left out); Go-side: one store step per operation of its class, no step without operation, every size query describes a regular file; non-trivial = overlapping write and at least two distinct names among the handles"
 	var cfgs []c15Cfg
 	var aliases []c15AliasCfg
@@ -563,7 +564,7 @@ func checkC15(c *lib.Ctx) {
 		}
 		cfgs = []c15Cfg{one}
 	} else {
-		c15Hammers(c, c15HammerCfgs(c))
+		c15Hammers(c, append(c15HammerCfgs(c), c15DistinctCfgs(c)...))
 		n := 400
 		if c.Tier == "thorough" {
 			n = 6000
